@@ -7,12 +7,21 @@
    is refuted in the model by "Foo\n---" (C04_full_statement_refuted): known finding
    kf_setext_in_quote.  The link definitions and the line numbers are part of the statement.
 
-   LIST (PARTIAL): kernel-checked on every text over a 9-symbol alphabet up to length 4,
-   for the markers "-" and "1." with padding 1-4; beyond the bound the law is decided
-   on the implementation by the oracle, the model being tied to it by X-doc. *)
+   LIST: proved for every marker (+ - * and one to nine digits followed by . or )), every
+   padding 1-4, every text given as structured tab-free lines (a first line starting with a
+   non-space character; further lines either empty or spaces + a character that is not space,
+   tab or newline + a body; the last line not blank; parse_sline turns raw lines into this
+   form), every fuel and every token configuration that tries List before Paragraph and Table,
+   excluding the marker / thematic-break coincidences (hypothesis thematic_start = false):
+   the block tokenizer returns exactly one list with one item whose content is the
+   tokenization of the text (C04_list_wraps).  The three list patterns regenerated from /repo
+   enter by their exact shape (Proofs/ListLaw.v: cont_shape, item_shape, list_shape - a
+   changed pattern breaks these reflexivity lemmas) and are evaluated with verified lemmas
+   about greedy repetition in the backtracking matcher (Proofs/ReExact.v).  The bounded sweep
+   (C04_bounded_list) is kept as a second, independent check through the inline phase. *)
 From Coq Require Import ZArith List Bool.
 From Mistletoe Require Import Base.Sx Base.PyStr Base.PyText Gen.GenConfig Model.Tree Model.CoreTokens Model.Block Model.Build
-     Model.Parser Proofs.Laws Proofs.QuoteLaw Proofs.LawsP.
+     Model.Parser Proofs.Laws Proofs.QuoteLaw Proofs.LawsP Proofs.ListLaw.
 Import ListNotations.
 Local Open Scope Z_scope.
 
@@ -50,3 +59,30 @@ Theorem C04_bounded_list : forall marker pad text,
   list_law cfg_html marker pad text = true.
 Proof. exact bounded_list_law. Qed.
 Print Assumptions C04_bounded_list.
+
+Theorem C04_list_wraps : forall types mk pad c0 body0 rest f ln st,
+  list_first types = true -> marker_ok mk -> (1 <= pad <= 4)%nat -> nonspace c0 = true -> mem 10 body0 = false ->
+  Forall sline_ok rest -> last_not_blank (SLine 0 c0 body0 :: rest) ->
+  let ms := marker_str mk in
+  let w := (length ms + pad)%nat in
+  let first_line := ms ++ repeat 32 pad ++ c0 :: body0 ++ [10] in
+  thematic_start first_line = false ->
+  let text := map render_line (SLine 0 c0 body0 :: rest) in
+  tokenize_block types (S f) (first_line :: map (embed_line w) rest) ln st =
+  let '(es, lo, st') := tokenize_block types f text ln st in
+  ([PList ln [PItem ln es ((1 <? nlines (length es)) && lo) 0 (Z.of_nat w) ms]], false, st').
+Proof. exact list_wraps. Qed.
+Print Assumptions C04_list_wraps.
+
+(* the hypotheses are satisfiable, raw lines are recovered by parse_sline, and every modelled configuration qualifies *)
+Theorem C04_list_law_hypotheses :
+  forallb (fun c => list_first (cfg_block c)) [cfg_html; cfg_html_nohtml; cfg_markdown; cfg_latex; cfg_mathjax; cfg_default] = true /\
+  (forall l sl, parse_sline l = Some sl -> render_line sl = l /\ sline_ok sl) /\
+  (let rest := [SBlank; SLine 4 99 $"ode"; SLine 0 62 $" q"] in
+   let emb := ($"12)  a b" ++ [10]) :: map (embed_line 5) rest in
+   marker_ok (MOrdered $"12" 41) /\ Forall sline_ok rest /\ last_not_blank (SLine 0 97 $" b" :: rest) /\
+   nonspace 97 = true /\ thematic_start ($"12)  a b" ++ [10]) = false /\
+   emb = [ $"12)  a b" ++ [10]; [10]; $"         code" ++ [10]; $"     > q" ++ [10] ] /\
+   map parse_sline [ $"a b" ++ [10]; [10]; $"    code" ++ [10]; $"> q" ++ [10] ] = map Some (SLine 0 97 $" b" :: rest)).
+Proof. split; [exact configs_list_first|]. split; [exact parse_sline_sound|exact list_law_instance]. Qed.
+Print Assumptions C04_list_law_hypotheses.
